@@ -33,7 +33,7 @@ def check(ids):
         res = {"repo_head": sh("git -C /repo rev-parse --short HEAD").stdout.strip(), "runs": []}
         # evidence files must come from runs on the unchanged tree: keep them aside while the seed is applied
         saved = {}
-        for p in [prop] + EXTRA.get(s, []):
+        for p in [prop] + EXTRA.get(s, []) + os.environ.get("SEED_EXTRA", "").split():
             ef = "%s/evidence/%s.json" % (V, p)
             if os.path.exists(ef):
                 saved[ef] = open(ef).read()
@@ -42,7 +42,7 @@ def check(ids):
             res["error"] = "patch does not apply: " + a.stderr[-300:]
         else:
             try:
-                for p in [prop] + EXTRA.get(s, []):
+                for p in [prop] + EXTRA.get(s, []) + os.environ.get("SEED_EXTRA", "").split():
                     t0 = time.time()
                     r = sh("%s/check %s" % (V, p), cwd=V)
                     out = r.stdout + r.stderr
